@@ -74,7 +74,7 @@ impl IsoExtensions3 for Iso3 {
     /// returns: Result<Isometry<f64, Unit<Quaternion<f64>>, 3>, Box<dyn Error, Global>>
     fn try_from_basis_xy(e0: &Vector3, e1: &Vector3, origin: Option<Point3>) -> Result<Iso3> {
         let e0 = e0.try_normalize(1e-10).ok_or("Could not normalize e0")?;
-        let e2 = e0.cross(e1).try_normalize(1e-10).ok_or("Could not normalize e2")?;
+        let e2 = e0.cross(e1).try_normalize(1e-10 * e1.norm()).ok_or("Could not normalize e2")?;
         let e1 = e2.cross(&e0).try_normalize(1e-10).ok_or("Could not normalize e1")?;
 
         from_bases(e0, e1, e2, origin)
@@ -104,7 +104,7 @@ impl IsoExtensions3 for Iso3 {
     /// returns: Result<Isometry<f64, Unit<Quaternion<f64>>, 3>, Box<dyn Error, Global>>
     fn try_from_basis_xz(e0: &Vector3, e2: &Vector3, origin: Option<Point3>) -> Result<Iso3> {
         let e0 = e0.try_normalize(1e-10).ok_or("Could not normalize e0")?;
-        let e1 = e2.cross(&e0).try_normalize(1e-10).ok_or("Could not normalize e1")?;
+        let e1 = e2.cross(&e0).try_normalize(1e-10 * e2.norm()).ok_or("Could not normalize e1")?;
         let e2 = e0.cross(&e1).try_normalize(1e-10).ok_or("Could not normalize e2")?;
         from_bases(e0, e1, e2, origin)
     }
@@ -133,7 +133,7 @@ impl IsoExtensions3 for Iso3 {
     /// returns: Result<Isometry<f64, Unit<Quaternion<f64>>, 3>, Box<dyn Error, Global>>
     fn try_from_basis_yz(e1: &Vector3, e2: &Vector3, origin: Option<Point3>) -> Result<Iso3> {
         let e1 = e1.try_normalize(1e-10).ok_or("Could not normalize e1")?;
-        let e0 = e1.cross(&e2).try_normalize(1e-10).ok_or("Could not normalize e0")?;
+        let e0 = e1.cross(&e2).try_normalize(1e-10 * e2.norm()).ok_or("Could not normalize e0")?;
         let e2 = e0.cross(&e1).try_normalize(1e-10).ok_or("Could not normalize e2")?;
         from_bases(e0, e1, e2, origin)
     }
@@ -162,7 +162,7 @@ impl IsoExtensions3 for Iso3 {
     /// returns: Result<Isometry<f64, Unit<Quaternion<f64>>, 3>, Box<dyn Error, Global>>
     fn try_from_basis_yx(e1: &Vector3, e0: &Vector3, origin: Option<Point3>) -> Result<Iso3> {
         let e1 = e1.try_normalize(1e-10).ok_or("Could not normalize e1")?;
-        let e2 = e0.cross(&e1).try_normalize(1e-10).ok_or("Could not normalize e2")?;
+        let e2 = e0.cross(&e1).try_normalize(1e-10 * e0.norm()).ok_or("Could not normalize e2")?;
         let e0 = e1.cross(&e2).try_normalize(1e-10).ok_or("Could not normalize e0")?;
         from_bases(e0, e1, e2, origin)
     }
@@ -191,7 +191,7 @@ impl IsoExtensions3 for Iso3 {
     /// returns: Result<Isometry<f64, Unit<Quaternion<f64>>, 3>, Box<dyn Error, Global>>
     fn try_from_basis_zx(e2: &Vector3, e0: &Vector3, origin: Option<Point3>) -> Result<Iso3> {
         let e2 = e2.try_normalize(1e-10).ok_or("Could not normalize e2")?;
-        let e1 = e2.cross(&e0).try_normalize(1e-10).ok_or("Could not normalize e2")?;
+        let e1 = e2.cross(&e0).try_normalize(1e-10 * e0.norm()).ok_or("Could not normalize e2")?;
         let e0 = e1.cross(&e2).try_normalize(1e-10).ok_or("Could not normalize e0")?;
         from_bases(e0, e1, e2, origin)
     }
@@ -220,7 +220,7 @@ impl IsoExtensions3 for Iso3 {
     /// returns: Result<Isometry<f64, Unit<Quaternion<f64>>, 3>, Box<dyn Error, Global>>
     fn try_from_basis_zy(e2: &Vector3, e1: &Vector3, origin: Option<Point3>) -> Result<Iso3> {
         let e2 = e2.try_normalize(1e-10).ok_or("Could not normalize e2")?;
-        let e0 = e1.cross(&e2).try_normalize(1e-10).ok_or("Could not normalize e0")?;
+        let e0 = e1.cross(&e2).try_normalize(1e-10 * e1.norm()).ok_or("Could not normalize e0")?;
         let e1 = e2.cross(&e0).try_normalize(1e-10).ok_or("Could not normalize e2")?;
         from_bases(e0, e1, e2, origin)
     }
